@@ -220,3 +220,16 @@ Proof.
       destruct (dec_weak_free _ o); discriminate.
     + destruct (finish_group (heap_of s) keys); discriminate.
 Qed.
+
+(** after a history in which every object has been destroyed and every Weak
+    dropped (and no panic leaked a teardown), nothing the library allocated is
+    left: every allocation released, every table gone *)
+Theorem all_destroyed_all_released s :
+  Inv s [] ->
+  (forall o b, nth_error (heap_of s) o = Some b -> live b = false) ->
+  (forall o, w_held (sw_weak o) s = 0) ->
+  (forall o, n_leak o (log s) = 0) ->
+  forall o b, nth_error (heap_of s) o = Some b -> freed b = true /\ links b = None /\ value b = None.
+Proof.
+  intros HI Hd Hw Hl o b Hb. apply (destroyed_released s o b HI Hb (Hd o b Hb) (Hl o) (Hw o)).
+Qed.
